@@ -420,6 +420,42 @@ def _compare(op: ast.cmpop, a, b, node):
     raise Unsupported(f"comparison {type(op).__name__}", node)
 
 
+AUG_BINOP = {"+=": ast.Add(), "-=": ast.Sub(), "*=": ast.Mult(), "&=": ast.BitAnd(), "|=": ast.BitOr(), "^=": ast.BitXor(),
+             "/=": ast.Div(), "//=": ast.FloorDiv(), "%=": ast.Mod()}
+
+
+def inplace(cur, op: str, value, node):
+    """Python's in-place semantics for mutable containers: the object is updated, not rebound. Returns (done, obj)."""
+    if isinstance(cur, set):
+        if hasattr(value, "abs_iter"):
+            value = set(value.abs_iter())
+        if not isinstance(value, (set, frozenset)):
+            raise Unsupported("in-place set operator with a non-set", node)
+        if op == "&=":
+            cur.intersection_update(value)
+        elif op == "|=":
+            cur.update(value)
+        elif op == "-=":
+            cur.difference_update(value)
+        elif op == "^=":
+            cur.symmetric_difference_update(value)
+        else:
+            return False, None
+        return True, cur
+    if isinstance(cur, list) and op == "+=":
+        if hasattr(value, "abs_iter"):
+            value = list(value.abs_iter())
+        if isinstance(value, Vec):
+            value = list(value.vals)
+        cur.extend(value)
+        return True, cur
+    if isinstance(cur, Vec) and op in ("+=", "-=", "*="):
+        new = _arith(AUG_BINOP[op], cur, value, node)
+        cur.vals[:] = new.vals
+        return True, cur
+    return False, None
+
+
 class Effect:
     __slots__ = ("target", "op", "value", "node")
 
@@ -967,7 +1003,10 @@ class Evaluator:
                 if hasattr(cur, "abs_iadd") and op == "+=":
                     cur.abs_iadd(value, self, stmt)
                     return
-                binop = {"+=": ast.Add(), "-=": ast.Sub(), "*=": ast.Mult()}[op]
+                done, _obj = inplace(cur, op, value, stmt)
+                if done:
+                    return
+                binop = AUG_BINOP[op]
                 self.env[target.id] = _arith(binop, cur, value, stmt)
             return
         if isinstance(target, (ast.Tuple, ast.List)):
@@ -983,8 +1022,11 @@ class Evaluator:
                 ob = None
             if isinstance(ob, Obj) and hasattr(ob, "abs_setattr"):
                 if op != "=":
-                    binop = {"+=": ast.Add(), "-=": ast.Sub(), "*=": ast.Mult()}[op]
-                    value = _arith(binop, ob.abs_getattr(target.attr, self, stmt), value, stmt)
+                    curv = ob.abs_getattr(target.attr, self, stmt)
+                    done, _obj = inplace(curv, op, value, stmt)
+                    if done:
+                        return
+                    value = _arith(AUG_BINOP[op], curv, value, stmt)
                 ob.abs_setattr(target.attr, value, self, stmt)
                 return
         if isinstance(target, ast.Subscript) and not isinstance(target.slice, ast.Slice):
@@ -1019,11 +1061,11 @@ class Evaluator:
                 if op == "=":
                     self.env[d] = value
                 elif d in self.env:
-                    binop = {"+=": ast.Add(), "-=": ast.Sub(), "*=": ast.Mult()}[op]
+                    binop = AUG_BINOP[op]
                     self.env[d] = _arith(binop, self.env[d], value, stmt)
 
     def _concrete_store(self, base, idx, op, value, stmt):
-        binop = {"+=": ast.Add(), "-=": ast.Sub(), "*=": ast.Mult()}.get(op)
+        binop = AUG_BINOP.get(op)
         if isinstance(base, dict):
             if op == "=":
                 base[idx] = value
@@ -1048,6 +1090,10 @@ class Evaluator:
         if not 0 <= idx < len(seq):
             # numpy / python would raise (or wrap for negatives): rules must see this
             raise IndexOut(idx, len(seq), stmt)
+        if op != "=":
+            done, _obj = inplace(seq[idx], op, value, stmt)
+            if done:
+                return
         seq[idx] = value if op == "=" else _arith(binop, seq[idx], value, stmt)
 
     def _alias_key(self, t: ast.AST):
@@ -1101,7 +1147,8 @@ class Evaluator:
                 self.store(st.target, "=", self._rhs(st.target, st.value), st)
             return
         if isinstance(st, ast.AugAssign):
-            op = {ast.Add: "+=", ast.Sub: "-=", ast.Mult: "*="}.get(type(st.op))
+            op = {ast.Add: "+=", ast.Sub: "-=", ast.Mult: "*=", ast.BitAnd: "&=", ast.BitOr: "|=", ast.BitXor: "^=",
+                  ast.Div: "/=", ast.FloorDiv: "//=", ast.Mod: "%="}.get(type(st.op))
             if op is None:
                 raise Unsupported("augmented operator", st)
             self.store(st.target, op, self.ev(st.value), st)
@@ -1257,6 +1304,15 @@ class Evaluator:
         except Unsupported:
             return False, None
         attr = call.func.attr
+        if isinstance(base, list) and attr == "sort":
+            kw = {k.arg: self.ev(k.value) for k in call.keywords}
+            if set(kw) - {"key", "reverse"} or call.args:
+                raise Unsupported("sort arguments", call)
+            keyf = kw.get("key")
+            keys = [keyf(x) if keyf else x for x in base]
+            order = sorted(range(len(base)), key=lambda i: keys[i], reverse=bool(kw.get("reverse", False)))
+            base[:] = [base[i] for i in order]
+            return True, None
         if isinstance(base, (list, set, dict, str, tuple)) and not call.keywords:
             args = [self.ev(a) for a in call.args]
             if attr in ("extend", "update", "intersection", "union", "difference", "issubset", "issuperset", "join"):
